@@ -326,6 +326,26 @@ pub fn run(ctx: &Ctx) -> i32 {
             }
         });
     });
+    // (c) one level deeper with binary branching (4 internal nodes, <= 5 leaves), positional actions,
+    // no corruptions: recall violations that need an own move above one node of an infoset and none
+    // above another, in either visiting order
+    if !ctx.thorough() {
+        let deeper = Bounds { max_internal: 4, max_arity: 2, max_leaves: 5, chance_infosets: true, degenerate: true };
+        let shapes4: Vec<Tree> = raw_shapes(&deeper).into_iter().filter(|s| s.num_internal() == 4).collect();
+        ctx.set("deeper_binary_raw_shapes", json!(shapes4.len()));
+        shapes4.par_iter().for_each(|shape| {
+            if ctx.stopped() {
+                return;
+            }
+            let mut count = 0u64;
+            labelled_variants(shape, false, &mut |tree| {
+                check_tree(ctx, tree, count % 29 == 0);
+                ctx.case(tree.num_internal() as u64 + 1, true);
+                ctx.count("deeper_binary_trees", 1);
+                count += 1;
+            });
+        });
+    }
     // hand-written distant-branch witnesses (kept as named regression inputs; also found by (a))
     for (name, tree) in witnesses() {
         check_tree(ctx, &tree, true);
@@ -359,6 +379,30 @@ pub fn witnesses() -> Vec<(&'static str, Tree)> {
             c(None, vec![(1.0, c(Some("k"), vec![(1.0, t(1.0))])), (1.0, c(Some("k"), vec![(1.0, t(0.0)), (1.0, t(2.0))]))]),
         ),
         ("non-finite payoff", t(f64::NAN)),
+        (
+            "chance infoset: two outcomes here, a third of negligible weight there",
+            c(None, vec![(1.0, c(Some("k"), vec![(1.0, t(1.0)), (1.0, t(0.0))])), (1.0, c(Some("k"), vec![(1.0, t(0.0)), (1.0, t(2.0)), (1e-17, t(4e17))]))]),
+        ),
+        (
+            "chance infoset: three outcomes with a negligible one here, two there",
+            c(None, vec![(1.0, c(Some("k"), vec![(1.0, t(0.0)), (1.0, t(2.0)), (1e-17, t(4e17))])), (1.0, c(Some("k"), vec![(1.0, t(1.0)), (1.0, t(0.0))]))]),
+        ),
+        (
+            "chance infoset: one outcome here, a second of negligible weight there",
+            c(None, vec![(1.0, c(Some("k"), vec![(1.0, t(1.0))])), (1.0, c(Some("k"), vec![(1.0, t(0.0)), (1e-17, t(2.0))]))]),
+        ),
+        (
+            "infoset met after an own move first and before any own move later",
+            c(None, vec![(1.0, p(0, "y", vec![("a", p(0, "x", vec![("l", t(1.0)), ("r", t(0.0))])), ("b", t(0.5))])), (1.0, p(0, "x", vec![("l", t(0.0)), ("r", t(1.0))]))]),
+        ),
+        (
+            "infoset met before any own move first and after an own move later",
+            c(None, vec![(1.0, p(1, "x", vec![("l", t(0.0)), ("r", t(1.0))])), (1.0, p(1, "y", vec![("a", p(1, "x", vec![("l", t(1.0)), ("r", t(0.0))])), ("b", t(0.5))]))]),
+        ),
+        (
+            "three chance weights near f64::MAX (valid: proportional to 2:3:3)",
+            c(None, vec![(1.0e308, p(0, "x", vec![("a", t(1.0)), ("b", t(0.0))])), (1.5e308, p(0, "x", vec![("a", t(0.0)), ("b", t(2.0))])), (1.5e308, t(-1.0))]),
+        ),
         (
             "absent-mindedness",
             p(1, "x", vec![("a", p(1, "x", vec![("a", t(0.0)), ("b", t(1.0))])), ("b", t(2.0))]),
